@@ -151,6 +151,28 @@ def main():
             inputs.append(mods)
     for i in range(400 if thorough else 40):
         inputs.append(faultgen.clash_modules(rng.fork("clash%d" % i)))
+    # dependency graphs of constants and structures in shuffled declaration order, with and without cycles (the
+    # compiler orders and partially generates these before anything else: a place where failures went unreported)
+    import c11
+    for i in range(6000 if thorough else 500):
+        src, _ids, _edges = c11.graph_case(rng.fork("graph%d" % i))
+        inputs.append([("g.pn", src + ("fn main()\n{\n}\n" if i % 2 else ""))])
+    for src, _ids, _edges in c11.ring_cases(rng.fork("rings"), thorough):
+        inputs.append([("g.pn", src)])
+    # calls with every number of arguments against every number of parameters (typed variables and literals)
+    for nparams in range(0, 4):
+        for nargs in range(0, 5):
+            for stmt in (False, True):
+                for argkind in ("var", "lit"):
+                    params = ", ".join("p%d: i32" % k for k in range(nparams))
+                    args = ", ".join(("a" if argkind == "var" else "%di32" % (k + 1)) for k in range(nargs))
+                    if stmt:
+                        f = "fn callee(%s)\n{\n}\n" % params
+                        use = "\tcallee(%s);\n" % args
+                    else:
+                        f = "fn callee(%s) -> i32\n{\n\treturn: 7\n}\n" % params
+                        use = "\tvar r: i32 = callee(%s);\n" % args
+                    inputs.append([("c.pn", f + "fn main()\n{\n\tvar a: i32 = 1;\n" + use + "}\n")])
     # every small statement structure (blocks, ifs, else branches, loops, gotos, labels in every arrangement: the
     # skeletons of C06 and C05), valid or not, through the whole pipeline including code generation
     import c06
@@ -182,6 +204,9 @@ def main():
             elif c == "crash":
                 # a dead worker says nothing about the cause: classify every case (the classes differ in their inputs)
                 sig = "crash:" + str(finding_class(u, a))
+            elif c == "err-empty":
+                # failures without diagnostics have different causes too: classify every case
+                sig = "err-empty:" + str(finding_class(u, a)) + ":" + re.sub(r"[0-9]+", "N", a[:80])
             else:
                 sig = c + ":" + re.sub(r"[0-9]+", "N", a[:80])
             bad.setdefault(sig, []).append((u, rq, a))
